@@ -66,6 +66,27 @@ Theorem C08_chanmap_concurrent_total :
 Proof. exact concurrent_chanmap_total. Qed.
 Print Assumptions C08_chanmap_concurrent_total.
 
+(* the answers: the calls, in the order their bodies ran, are the calls in lock-acquisition order and every caller got
+   the result the sequential sequence gives at that position ([cfold] = every operation with its result) ... *)
+Theorem C08_chanmap_concurrent_responses :
+  forall progs (s0 : cm) sched (s : cm_cstate),
+    SerialEq.run cm_ueqb cm_upd sched (SerialEq.init progs (fun _ => s0)) = Some s -> SerialEq.finished s = true ->
+    map fst (SerialEq.hist s) = SerialEq.acqs s /\
+    map snd (SerialEq.hist s) = snd (cfold s0 (map (@SerialEq.c_op unit cop) (SerialEq.acqs s))).
+Proof. exact concurrent_chanmap_responses. Qed.
+Print Assumptions C08_chanmap_concurrent_responses.
+
+(* ... so with fresh names no concurrent caller of the store panics (nil map, closing a closed channel), whatever the
+   schedule: every call returned, none with a panic *)
+Theorem C08_chanmap_concurrent_no_caller_panics :
+  forall progs sched (s : cm_cstate),
+    SerialEq.run cm_ueqb cm_upd sched (SerialEq.init progs (fun _ => cm_init)) = Some s -> SerialEq.finished s = true ->
+    fresh_adds (map (@SerialEq.c_op unit cop) (SerialEq.acqs s)) ->
+    length (SerialEq.hist s) = length (SerialEq.acqs s) /\
+    Forall (fun x => is_panic x = false) (map snd (SerialEq.hist s)).
+Proof. exact concurrent_chanmap_no_caller_panics. Qed.
+Print Assumptions C08_chanmap_concurrent_no_caller_panics.
+
 (* non-vacuity: an admission (Add), a disconnect of another connection (DelChild) and a deny (DelCloseParent) from
    three threads; the deny gets the lock between the two others: the store is what that order gives *)
 Example C08_chanmap_concurrent_witness :
